@@ -189,7 +189,11 @@ func observe(table *device.AllowedIPs, peers []*device.Peer, id map[*device.Peer
 		n := 0
 		table.EntriesForPeer(p, func(pf netip.Prefix) bool {
 			w := words(pf.Addr())
-			l = append(l, uint32(famOf(pf.Addr())), uint32(pf.Bits()), w[0], w[1], w[2], w[3])
+			bits := uint32(999) // an invalid netip.Prefix (Bits() == -1) is listed with an impossible length
+			if pf.IsValid() && pf.Bits() >= 0 {
+				bits = uint32(pf.Bits())
+			}
+			l = append(l, uint32(famOf(pf.Addr())), bits, w[0], w[1], w[2], w[3])
 			n++
 			return n < 1<<16
 		})
@@ -767,6 +771,8 @@ func (g *gen) specialPool() []netip.Prefix {
 		masked(v4, 32), masked(mapped, 128), masked(compat, 128),
 		masked(v4, 16), masked(mapped, 112), masked(compat, 112),
 		masked(v4, 24), masked(mapped, 120),
+		masked(mapped, 104), masked(mapped, 97+r.Intn(31)), masked(mapped, 97), masked(mapped, 127),
+		masked(mapped, 64+r.Intn(32)), masked(mapped, r.Intn(64)),
 		mustPrefix("::ffff:0:0/96"), mustPrefix("0.0.0.0/0"), mustPrefix("::/0"), mustPrefix("::/96"),
 	}
 	extra := []netip.Prefix{
